@@ -63,6 +63,15 @@ CHECKS = {
          "results on every lattice box and point. Kernels run with NUMBA_BOUNDSCHECK=1 so out-of-bounds writes fail loudly.",
          "Intersection invariance only for inputs whose holes are wound opposite to their shell; holes inside by construction.",
          "DESIGN.md section 3/C15"),
+ "C07": ("exploration", "E1",
+         "exhaustive enumeration of all cells and all distances per (n,p) up to 2^20..2^22 cells; structured seam family beyond",
+         "For every (n,p) up to the stated limit ALL cells and ALL distances are evaluated and every clause of the "
+         "statement is checked on the whole grid (round trips, permutation, adjacency, refinement between successive "
+         "orders, end points, scalar == vectorised, every integer coordinate dtype). For larger p (up to n*p=62) the "
+         "same clauses are checked on a deterministic family of quadrant-seam cells/distances, which is where the "
+         "Gray-code and undo-excess-work steps change behaviour.",
+         "Beyond the exhaustive limit only the structured family is covered (stated in evidence).",
+         "DESIGN.md section 3/C07"),
 }
 
 NOT_YET = {}
